@@ -151,7 +151,9 @@ def function_sources(m):
     cg = _Codegen()
     out = {}
     for f in m["funcs"]:
-        args = ", ".join(f["args"])
+        kw = [a for a in f["args"] if a in (f.get("kwonly") or [])]
+        pos = [a for a in f["args"] if a not in kw]
+        args = ", ".join(pos + (["*"] + kw if kw else []))      # def f(a, b, *, k): keyword-only arguments
         if f["kind"] == "stoch":
             out[f["name"]] = f"@lcm.mark.stochastic\ndef {f['name']}({args}):\n    pass\n"
         else:
@@ -189,6 +191,15 @@ def build(m):
     from lcm import Model
 
     funcs = build_functions(m)
+    if (m.get("meta") or {}).get("mark_call"):
+        # the user derives a stochastic variant of the model by CALLING the decorator on the deterministic transition
+        # functions of discrete states -- and keeps using the plain functions in this model
+        import lcm
+
+        disc = {v["name"] for v in m["vars"] if v["role"] == "state" and v["kind"] == "disc"}
+        for f in m["funcs"]:
+            if f["kind"] == "next" and f["name"][len("next_"):] in disc:
+                lcm.mark.stochastic(funcs[f["name"]])
     states = {v["name"]: build_grid(v) for v in m["vars"] if v["role"] == "state"}
     choices = {v["name"]: build_grid(v) for v in m["vars"] if v["role"] == "choice"}
     return Model(n_periods=m["T"], functions=funcs, states=states, choices=choices)
